@@ -113,6 +113,7 @@ func (p *Parser) Finish(seq Sequence) {
 func (p *Parser) run() {
 outer:
 	for {
+		verifHook("run.top")
 		select {
 		case <-p.close:
 			break outer
